@@ -213,7 +213,8 @@ impl OutputFormat for IcyDraw {
                     for x in 0..real_length {
                         let ch = layer.get_char((x, y));
                         // a cell that is not visible is written without data, as the plain INVISIBLE word the reader expects
-                        let mut attr = if ch.is_visible() { ch.attribute.attr } else { attribute::INVISIBLE };
+                        // SHORT_DATA is the record length marker of the file, not a cell attribute: it is set below only
+                        let mut attr = if ch.is_visible() { ch.attribute.attr & !attribute::SHORT_DATA } else { attribute::INVISIBLE };
 
                         let is_short = if ch.is_visible()
                             && ch.ch as u32 <= 255
@@ -267,7 +268,8 @@ impl OutputFormat for IcyDraw {
                         for x in 0..real_length {
                             let ch = layer.get_char((x, y));
                             // a cell that is not visible is written without data, as the plain INVISIBLE word the reader expects
-                            let mut attr = if ch.is_visible() { ch.attribute.attr } else { attribute::INVISIBLE };
+                            // SHORT_DATA is the record length marker of the file, not a cell attribute: it is set below only
+                            let mut attr = if ch.is_visible() { ch.attribute.attr & !attribute::SHORT_DATA } else { attribute::INVISIBLE };
 
                             let is_short = if ch.is_visible()
                                 && ch.ch as u32 <= 255
